@@ -15,7 +15,8 @@ def run(prop, table_file, table_name, key_fn, ok_fn, theorem_name, statement, le
     gen = os.path.join(core.COQ, "Gen")
     name = "%schk_%d" % (prop, os.getpid())
     path = os.path.join(gen, name + ".v")
-    core.coq_make(["Sys/Tables.vo"])
+    if not os.path.exists(os.path.join(core.COQ, "Sys", "Tables.vo")):
+        core.coq_make(["Sys/Tables.vo"])
     with open(path, "w") as f:
         f.write("From Coq Require Import String List Bool NArith.\nFrom GmVerif Require Import Sys.Tables.\nImport ListNotations.\n")
         f.write("Set Printing Width 1000000.\nSet Printing Depth 1000000.\n")
